@@ -41,10 +41,7 @@ Proof.
     destruct (take_n_lenN _ _ _ _ E). lia.
   - destruct (take_n n bs) as [[b r]|e] eqn:E; [|discriminate]. inversion H; subst.
     destruct (take_n_lenN _ _ _ _ E). lia.
-  - destruct bs as [|b r]; [discriminate|]. cbn [impl_dec_fshort] in H.
-    destruct (take_n (Z.to_nat (Z.of_N b)) r) as [[s r']|e] eqn:E; [|discriminate]. inversion H; subst.
-    destruct (take_n_lenN _ _ _ _ E). unfold lenN in *. cbn [length]. lia.
-  - unfold van_dec_fshort in *. destruct (take_n 2 bs) as [[b2 r]|e] eqn:E; [|discriminate].
+  - unfold dec_fshort in *. destruct (take_n 2 bs) as [[b2 r]|e] eqn:E; [|discriminate].
     destruct (take_n_lenN _ _ _ _ E) as [E1 _].
     destruct (Z.land (Z.of_N (be_val b2)) 32768 =? 0).
     + destruct (forge_max <? Z.of_N (be_val b2)); [discriminate|].
@@ -54,6 +51,9 @@ Proof.
       destruct (forge_max <? _) eqn:E3; [discriminate|].
       destruct (take_n _ r') as [[s r'']|e] eqn:E2; [|discriminate]. inversion H; subst.
       destruct (take_n_lenN _ _ _ _ E2). apply Z.ltb_ge in E3. unfold lenN in *. cbn [length] in *. lia.
+  - destruct bs as [|b r]; [discriminate|]. cbn [old_dec_fshort] in H.
+    destruct (take_n (Z.to_nat (Z.of_N b)) r) as [[s r']|e] eqn:E; [|discriminate]. inversion H; subst.
+    destruct (take_n_lenN _ _ _ _ E). unfold lenN in *. cbn [length]. lia.
   - destruct (dec_lenpref _ bs) as [[s r]|e] eqn:E; [|discriminate].
     destruct (claimed_ok _ _ _ _ E) as [C1 C2]. rewrite C1.
     destruct (parse_uuid_text s) eqn:P; [|discriminate]. inversion H; subst.
@@ -74,9 +74,9 @@ Proof.
   destruct p as [| | w sg | max | max | | n | | | d | |]; cbn [lp_alloc lp_cap]; try lia.
   - pose proof (claimed_le (4 * max) bs). lia.
   - pose proof (claimed_le max bs). lia.
-  - destruct bs as [|b r]; lia.
-  - destruct (van_dec_fshort bs) as [[n r]|e]; [|lia].
+  - destruct (dec_fshort bs) as [[n r]|e]; [|lia].
     destruct (forge_max <? n) eqn:E; [lia|]. apply Z.ltb_ge in E. unfold forge_max in *. lia.
+  - destruct bs as [|b r]; lia.
   - pose proof (claimed_le (4 * (if d then 36 else 32)) bs). destruct d; lia.
   - pose proof (claimed_le (4 * default_max) bs). unfold default_max in *. lia.
   - destruct (nbt_rest bs) as [r|] eqn:E; [apply nbt_rest_len in E; unfold lenN; lia | lia].
@@ -104,15 +104,15 @@ Proof.
   - pose proof (dec_lenpref_nofuel max bs). destruct (dec_lenpref max bs) as [[s r]|e]; [discriminate | congruence].
   - pose proof (take_n_nofuel 16 bs). destruct (take_n 16 bs) as [[b r]|e]; [discriminate | congruence].
   - pose proof (take_n_nofuel n bs). destruct (take_n n bs) as [[b r]|e]; [discriminate | congruence].
-  - destruct bs as [|b r]; [discriminate|]. cbn [impl_dec_fshort].
-    pose proof (take_n_nofuel (Z.to_nat (Z.of_N b)) r). destruct (take_n _ r) as [[s r']|e]; [discriminate | congruence].
-  - unfold van_dec_fshort. pose proof (take_n_nofuel 2 bs). destruct (take_n 2 bs) as [[b2 r]|e]; [|congruence].
+  - unfold dec_fshort. pose proof (take_n_nofuel 2 bs). destruct (take_n 2 bs) as [[b2 r]|e]; [|congruence].
     destruct (Z.land _ 32768 =? 0).
     + destruct (forge_max <? _); [discriminate|].
       pose proof (take_n_nofuel (Z.to_nat (Z.of_N (be_val b2))) r). destruct (take_n _ r) as [[s r']|e]; [discriminate | congruence].
     + destruct r as [|h r']; [discriminate|]. destruct (forge_max <? _); [discriminate|].
       match goal with |- context [take_n ?k r'] => pose proof (take_n_nofuel k r'); destruct (take_n k r') as [[s r'']|e] end;
         [discriminate | congruence].
+  - destruct bs as [|b r]; [discriminate|]. cbn [old_dec_fshort].
+    pose proof (take_n_nofuel (Z.to_nat (Z.of_N b)) r). destruct (take_n _ r) as [[s r']|e]; [discriminate | congruence].
   - match goal with |- context [dec_lenpref ?l bs] => pose proof (dec_lenpref_nofuel l bs); destruct (dec_lenpref l bs) as [[s r]|e] end;
       [|congruence]. destruct (parse_uuid_text s); discriminate.
   - match goal with |- context [dec_lenpref ?l bs] => pose proof (dec_lenpref_nofuel l bs); destruct (dec_lenpref l bs) as [[s r]|e] end;
